@@ -50,7 +50,7 @@ fn main() {
         seed,
         known: Known::load(&verif),
         verif,
-        repo: PathBuf::from("/repo"),
+        repo: PathBuf::from(std::env::var("VCHECK_REPO").unwrap_or_else(|_| "/repo".into())),
         profile,
         start: Instant::now(),
         strict: replay.is_some(),
